@@ -82,6 +82,7 @@ def _arith(op, x, y):
 
 
 ANY = "?"                          # a value the world does not fix
+POS = "positive"                   # some positive integer (a counter after ++)
 UNK = frozenset([ANY])
 TRANSPARENT = ("ParenExpr", "ExprWithCleanups", "ImplicitCastExpr", "MaterializeTemporaryExpr", "CXXBindTemporaryExpr",
                "ConstantExpr", "CXXFunctionalCastExpr", "CStyleCastExpr", "CXXStaticCastExpr")
@@ -276,6 +277,7 @@ class World(object):
         rets = set()
         self.reached_elems = set()
         self.ret_envs = []
+        self.exit_envs = []          # environments in which control falls off the end of the function
         try:
             seen = set()
             stack = [(cfg.entry, ())]
@@ -292,6 +294,8 @@ class World(object):
                 env = dict(envt)
                 env_box[0] = env
                 blk = cfg.blocks[b]
+                if b == cfg.exit:
+                    self.exit_envs.append(dict(env))
                 done = False
                 for e in blk.elems:
                     self.reached_elems.add(e["i"])
@@ -313,7 +317,12 @@ class World(object):
                         for y in e.get("c", [])[:1]:
                             y = strip_casts(y)
                             if y is not None and y["k"] == "DeclRefExpr" and y.get("d") in track:
-                                env[y["d"]] = UNK
+                                cur = env.get(y["d"], UNK)
+                                if e["k"] == "UnaryOperator" and e.get("op") == "++" and cur and all(
+                                        v == POS or (isinstance(v, int) and not isinstance(v, bool) and v >= 0) for v in cur):
+                                    env[y["d"]] = frozenset([POS])       # a counter that was incremented: positive
+                                else:
+                                    env[y["d"]] = UNK
                     elif e["k"] == "ReturnStmt":
                         rv = set(self.ev(e["c"][0])) if e.get("c") and e["c"][0] is not None else {None}
                         rets |= rv
